@@ -464,6 +464,41 @@ where
             y[0] = usize::MAX;
             preject(h, "cidx_max", &pk, &pb, hdr.as_deref(), ph.as_deref(), Some(l), &dm, &dcm, &d, &y);
         }
+        // more / fewer disclosed messages than indexes, in either half (surplus at the end, in front, alone)
+        {
+            let extra = b"surplus".to_vec();
+            let mut dcm_more = dcm.clone();
+            dcm_more.push(extra.clone());
+            preject(h, "surplus_committed_message", &pk, &pb, hdr.as_deref(), ph.as_deref(), Some(l), &dm, &dcm_more, &d, &dc);
+            let mut dm_more = dm.clone();
+            dm_more.push(extra.clone());
+            preject(h, "surplus_signer_message", &pk, &pb, hdr.as_deref(), ph.as_deref(), Some(l), &dm_more, &dcm, &d, &dc);
+            let mut dm_front = dm.clone();
+            dm_front.insert(0, extra.clone());
+            preject(h, "surplus_signer_message_front", &pk, &pb, hdr.as_deref(), ph.as_deref(), Some(l), &dm_front, &dcm, &d, &dc);
+            if !dcm.is_empty() {
+                preject(h, "missing_committed_message", &pk, &pb, hdr.as_deref(), ph.as_deref(), Some(l), &dm, &dcm[..dcm.len() - 1].to_vec(), &d, &dc);
+            }
+            if !dm.is_empty() {
+                preject(h, "missing_signer_message", &pk, &pb, hdr.as_deref(), ph.as_deref(), Some(l), &dm[1..].to_vec(), &dcm, &d, &dc);
+            }
+            // Option mismatches: messages given, indexes absent (and the reverse), per half
+            if let Ok(pp) = Pok::<CS>::from_bytes(&pb) {
+                let combos: Vec<(&str, Option<&[Vec<u8>]>, Option<&[Vec<u8>]>, Option<&[usize]>, Option<&[usize]>)> = vec![
+                    ("committed_msgs_without_indexes", Some(&dm), Some(&dcm_more), Some(&d), None),
+                    ("signer_msgs_without_indexes", Some(&dm_more), Some(&dcm), None, Some(&dc)),
+                    ("committed_indexes_without_msgs", Some(&dm), None, Some(&d), Some(&[0usize][..])),
+                    ("signer_indexes_without_msgs", None, Some(&dcm), Some(&[0usize][..]), Some(&dc)),
+                ];
+                for (nm, a, b, ia, ib) in combos {
+                    let v = blindproofverify::<CS>(h, &pk, &pp, hdr.as_deref(), ph.as_deref(), Some(l), a, b, ia, ib);
+                    let id = h.last();
+                    h.stat(&format!("C06.bpv.{}", nm));
+                    h.expect(!v.is_panic(), "C06.bpv_panic", "blind_proof_verify panicked", &[id]);
+                    h.expect(!v.is_ok(), &format!("C06.bpv_{}", nm), "blind_proof_verify accepted messages and indexes that do not pair up", &[id]);
+                }
+            }
+        }
         let mut h1 = hdr.clone().unwrap_or_default();
         h1.push(1);
         preject(h, "hdr", &pk, &pb, Some(&h1), ph.as_deref(), Some(l), &dm, &dcm, &d, &dc);
